@@ -572,6 +572,50 @@ def e2e(cfg, workdir: str, tag: str):
     return facts, fails
 
 
+def plan_levels(cfg):
+    """[(level shape, tile)] a configuration leads to — harness-side integer arithmetic, used only to keep the
+    generator away from the known hang below"""
+    ny, nx = cfg["shape"]
+    b = cfg["blocksize"]
+    if b is None:
+        dch = (min(cfg["chunks"][0], ny), min(cfg["chunks"][1], nx))
+        b = [dch, max(max(dch) // 2, 1)]
+    bl = [b] if isinstance(b, int) else list(b)
+    norm = lambda t: (ceil_to(t, 16),) * 2 if isinstance(t, int) else (ceil_to(t[0], 16), ceil_to(t[1], 16))
+    ty, tx = norm(bl[-1])
+    if min(ty, tx) <= 0:
+        return []
+    n = max(least_k(ty, ny), least_k(tx, nx))
+    P = (ceil_to(ny, 2**n), ceil_to(nx, 2**n))
+    return [((P[0] >> k, P[1] >> k), norm(bl[min(k, len(bl) - 1)])) for k in range(n + 1)]
+
+
+def uncompressed_single_tile_level(cfg) -> bool:
+    """KNOWN FINDING (not repaired): with compression NONE, a pyramid level that is exactly one tile makes tifffile
+    write "contiguously" and drain the endless `itertools.repeat(b"")` that `_make_empty_cog` passes → endless loop."""
+    return cfg["comp"] == "none" and any(sh == tl for sh, tl in plan_levels(cfg))
+
+
+class _Timeout(Exception):
+    pass
+
+
+def with_timeout(seconds: float, fn):
+    """run fn() in the main thread, raising _Timeout if it is still running after `seconds`"""
+    import signal  # pylint: disable=import-outside-toplevel
+
+    def _h(*_a):
+        raise _Timeout()
+
+    old = signal.signal(signal.SIGALRM, _h)
+    signal.setitimer(signal.ITIMER_REAL, seconds)
+    try:
+        return fn()
+    finally:
+        signal.setitimer(signal.ITIMER_REAL, 0)
+        signal.signal(signal.SIGALRM, old)
+
+
 def cfg_sig(cfg) -> str:
     ny, nx = cfg["shape"]
     narrow = "1px" if min(ny, nx) == 1 else ("narrow" if min(ny, nx) < 16 else "wide")
@@ -927,6 +971,8 @@ def run(R: Run):
         ]
         done = 0
         for i, cfg in enumerate(corpus):
+            if uncompressed_single_tile_level(cfg):
+                cfg["comp"] = "zstd"
             run_e2e(R, cfg, workdir, f"k{i}")
             done += 1
         for i in range(n_e2e):
@@ -934,9 +980,25 @@ def run(R: Run):
                 R.notes.append(f"end-to-end loop stopped by time budget after {done} files")
                 break
             cfg = gen_cfg(rng, big=(i % 3 == 0))
+            if uncompressed_single_tile_level(cfg):
+                cfg["comp"] = "zstd"  # the uncompressed variant would hang, see the probe below
+                R.count("e2e|uncompressed-single-tile-level-avoided")
             run_e2e(R, cfg, workdir, f"c{i}")
             done += 1
         R.extra["e2e_files_written"] = done
+
+        # probe of the known finding: uncompressed + a level of exactly one tile → `_make_empty_cog` never returns
+        probe = {"fn": "_make_empty_cog", "shape": [32, 32], "gbox": "N", "blocksize": ["16"], "compression": "none"}
+        try:
+            with_timeout(4.0, lambda: T._make_empty_cog((32, 32), "uint8", None, blocksize=[16], compression="none"))  # pylint: disable=protected-access
+            hung = False
+        except _Timeout:
+            hung = True
+        except Exception:  # pylint: disable=broad-except
+            hung = False
+        R.oracle(not hung, "make-empty-cog-hangs:uncompressed-single-tile-level", probe,
+                 "save_cog_with_dask(compression='none'): _make_empty_cog((32,32), blocksize=[16]) does not return — tifffile writes "
+                 "an uncompressed single-tile level contiguously and drains the endless itertools.repeat(b'')", sig="probe|uncompressed")
     finally:
         shutil.rmtree(workdir, ignore_errors=True)
 
@@ -995,6 +1057,14 @@ def replay(R: Run, rec) -> int:
         except Exception as e:  # pylint: disable=broad-except
             print("driver unavailable:", e)
         return 1 if fails else 0
+    if key.startswith("make-empty-cog-hangs"):
+        try:
+            with_timeout(4.0, lambda: T._make_empty_cog(tuple(case["shape"]), "uint8", None, blocksize=[16], compression="none"))  # pylint: disable=protected-access
+            print("returned")
+            return 0
+        except _Timeout:
+            print("still running after 4 s: endless loop")
+            return 1
     if isinstance(case, dict) and case.get("fn") == "_make_empty_cog":
         from affine import Affine  # pylint: disable=import-outside-toplevel
 
